@@ -2,7 +2,7 @@
 import json
 import os
 
-from .. import core, frame, gen, lab, trees
+from .. import ambient, core, frame, gen, lab, trees
 
 PROP = "C05"
 
@@ -108,7 +108,9 @@ def work(job):
     with core.Box(tag="c05") as box:
         cfg = core.make_config(structured=True if structured else None, use_cache=False,
                                macros=gen.DEFAULT_MACROS + ([("log", "debug")] if kind.startswith("corpus") else []))
-        out = lab.run_tree(built, box, files, cfg, trace=False, timeout=300)
+        amb = ambient.choose(rnd, files, p=0.3, kinds=["ro_sources", "ro_sources", "mtimes", "siblings", "mix"])
+        out = lab.run_tree(built, box, files, cfg, trace=False, timeout=300, ambient=amb)
+    res["counters"]["ambient_" + amb["kind"]] = 1
     if out.check.panicked() or out.edit.panicked() or out.check.timed_out or out.edit.timed_out:
         res["inconclusive"]["run-crashed-or-timeout (C17's business)"] = 1
         return res
@@ -137,7 +139,7 @@ def work(job):
             "signature": "C05.%s|%s" % (clause, "structured" if structured else "unstructured"),
             "detail": dict(detail, file=rel, kind=kind, check_exit=out.check.ended(), edit_exit=out.edit.ended()),
             "case": {"files": ({rel: out.files[rel].before} if rel != "*" else {r: f.before for r, f in list(out.files.items())[:8]}),
-                     "structured": structured}})
+                     "structured": structured, "ambient": amb}})
     if i < 40 and kind == "gen":
         fo = next((f for f in out.files.values() if f.tokens), None)
         if fo:
@@ -185,7 +187,7 @@ def replay_witness(w, ck=None, built=None):
     files = {rel: (bytes.fromhex(d["hex"]) if isinstance(d, dict) else d.encode("utf-8")) for rel, d in c["files"].items()}
     with core.Box(tag="c05r") as box:
         cfg = core.make_config(structured=True if c["structured"] else None, use_cache=False)
-        out = lab.run_tree(built, box, files, cfg, trace=False)
+        out = lab.run_tree(built, box, files, cfg, trace=False, ambient=ambient.from_json(c.get("ambient")))
     v = judge(out, files)
     return bool(v)
 
